@@ -254,18 +254,19 @@ def pair(ctx):
     # decimal parameters under the keys the parser reads: precision & scale in both
     ctx.ob('PAIR', 'decimal-keys', {'precision', 'scale'} <= wkeys and {'precision', 'scale'} <= rkeys_obj, None, 'decimal parameters written/read under precision, scale')
     # each decimal key carries the right field
-    okd = 0
+    # (every site: a writer duplicated by inlining or split over helpers is judged site by site)
+    seen_d = {'scale': [], 'precision': []}
     for b in ser_bodies:
         for bb, t in b.calls():
-            if (t.get('callee') or '').endswith('SerializeMap::serialize_entry'):
+            if (t.get('callee') or '').endswith('SerializeMap::serialize_entry') and not b.is_cleanup(bb):
                 k = origin(b, t['args'][1])
                 v = origin(b, t['args'][2])
                 ks = {x for x in k.consts() if isinstance(x, str)}
-                if ks == {'scale'} and 'scale' in v.fields and 'precision' not in v.fields:
-                    okd += 1
-                if ks == {'precision'} and 'precision' in v.fields and 'scale' not in v.fields:
-                    okd += 1
-    ctx.ob('PAIR', 'decimal-values', okd == 2, None, '"scale" carries decimal.scale and "precision" carries decimal.precision: %d of 2' % okd)
+                for mine, other in (('scale', 'precision'), ('precision', 'scale')):
+                    if ks == {mine}:
+                        seen_d[mine].append(mine in v.fields and other not in v.fields)
+    okd = sum(1 for k in seen_d if seen_d[k] and all(seen_d[k]))
+    ctx.ob('PAIR', 'decimal-values', okd == 2, None, '"scale" carries decimal.scale and "precision" carries decimal.precision at every site: %d of 2 keys (%d sites)' % (okd, sum(len(v) for v in seen_d.values())))
     # parser side: Decimal{precision: field!(precision), scale: field!(scale)}
     okp = False
     if rn is not None:
@@ -332,6 +333,10 @@ def logical_pair(ctx, rule):
            'the text of an unknown logicalType reaches UnknownLogicalType::new untransformed: %s' % okv)
 
 
+def t_span(b, bb):
+    return b.term(bb).get('span')
+
+
 def type_entry_rule(ctx):
     """every node's "type" (and with it its logicalType and the logical type's parameters) is written by the one writer
     that emits both; the renderer's own arms never write a bare "type" entry (an arm that did would drop the logical
@@ -343,16 +348,26 @@ def type_entry_rule(ctx):
             kb = b
     if kb is None:
         return
-    direct = []
-    for bb, t in kb.calls():
-        if (t.get('callee') or '').endswith('SerializeMap::serialize_entry') and not kb.is_cleanup(bb):
-            ks = {x for x in origin(kb, t['args'][1]).consts() if isinstance(x, str)}
-            if ks & {'type', 'logicalType'}:
-                direct.append(sorted(ks))
-    writers = [c for c in f.closures_of(kb) if any((t.get('callee') or '').endswith('SerializeMap::serialize_entry') and
-                                                    'logicalType' in {x for x in origin(c, t['args'][1]).consts() if isinstance(x, str)} for bb, t in c.calls())]
-    ctx.ob('REQUIRED', 'type-only-with-logical-type', not direct and len(writers) == 1, short_loc(kb.span),
-           'bare "type"/"logicalType" entries written by the arms themselves: %s; closures writing type together with logicalType: %d' % (direct or 'none', len(writers)))
+    bare, writers = [], 0
+    for b in [kb] + f.closures_of(kb):
+        sites = []
+        for bb, t in b.calls():
+            if (t.get('callee') or '').endswith('SerializeMap::serialize_entry') and not b.is_cleanup(bb):
+                ks = {x for x in origin(b, t['args'][1]).consts() if isinstance(x, str)}
+                sites.append((bb, ks))
+        lt_blocks = [bb for bb, ks in sites if 'logicalType' in ks]
+        for bb, ks in sites:
+            if 'type' not in ks:
+                continue
+            # accepted forms: after the logicalType entry on the same path, or where the node's logical type is None
+            after_lt = any(x != bb and b.dominates(x, bb) for x in lt_blocks)
+            none_arm = any('None' in names and 'logical_type' in o.fields for names, adt, o, d, others in option_guards(b, bb))
+            if after_lt or none_arm:
+                writers += 1
+            else:
+                bare.append(short_loc(t_span(b, bb)))
+    ctx.ob('REQUIRED', 'type-only-with-logical-type', not bare and writers >= 1, short_loc(kb.span),
+           'bare "type" entries (neither after the logicalType entry nor where the logical type is None): %s; "type" entries written together with the logical type: %d' % (bare or 'none', writers))
 
 
 def namespace(ctx):
